@@ -104,28 +104,52 @@ func load() (*loaded, error) {
 	if err != nil {
 		return nil, err
 	}
-	cfg := &packages.Config{
-		Mode:       packages.LoadAllSyntax,
-		Dir:        repoDir,
-		Env:        goEnv(),
-		BuildFlags: []string{"-tags=verif"},
-		Overlay:    ov.Mem,
-	}
-	pkgs, err := packages.Load(cfg, "./knx/...")
-	if err != nil {
-		return nil, err
-	}
-	nerr := 0
-	packages.Visit(pkgs, nil, func(p *packages.Package) {
-		for _, e := range p.Errors {
-			if nerr < 20 {
-				fmt.Fprintln(os.Stderr, "load error:", e)
-			}
-			nerr++
+	var pkgs []*packages.Package
+	// A harness file that no longer compiles against the current tree (it is in-package code and
+	// names unexported identifiers) is dropped, so that it only takes its own checks down.
+	for attempt := 0; ; attempt++ {
+		cfg := &packages.Config{
+			Mode:       packages.LoadAllSyntax,
+			Dir:        repoDir,
+			Env:        goEnv(),
+			BuildFlags: []string{"-tags=verif"},
+			Overlay:    ov.Mem,
 		}
-	})
-	if nerr > 0 {
-		return nil, fmt.Errorf("%d package load errors (does /repo compile with the harness overlay?)", nerr)
+		pkgs, err = packages.Load(cfg, "./knx/...")
+		if err != nil {
+			return nil, err
+		}
+		nerr := 0
+		bad := map[string]bool{}
+		other := 0
+		packages.Visit(pkgs, nil, func(p *packages.Package) {
+			for _, e := range p.Errors {
+				if nerr < 20 {
+					fmt.Fprintln(os.Stderr, "load error:", e)
+				}
+				nerr++
+				file := e.Pos
+				if i := strings.Index(file, ":"); i >= 0 {
+					file = file[:i]
+				}
+				if _, isHarness := ov.Mem[file]; isHarness && strings.Contains(file, "zz_verif_") && !strings.HasSuffix(file, "zz_verif_rt.go") {
+					bad[file] = true
+				} else {
+					other++
+				}
+			}
+		})
+		if nerr == 0 {
+			break
+		}
+		if other > 0 || len(bad) == 0 || attempt >= 6 {
+			return nil, fmt.Errorf("%d package load errors (does /repo compile with the harness overlay?)", nerr)
+		}
+		for f := range bad {
+			fmt.Fprintln(os.Stderr, "dropping harness file that does not compile against this tree:", f)
+			delete(ov.Mem, f)
+			droppedHarness = append(droppedHarness, filepath.Base(f))
+		}
 	}
 	prog, _ := ssautil.AllPackages(pkgs, ssa.InstantiateGenerics)
 	prog.Build()
@@ -138,6 +162,9 @@ func load() (*loaded, error) {
 	}
 	return &loaded{World: w, Prog: prog, Pkgs: pkgs, LoadS: time.Since(t0).Seconds()}, nil
 }
+
+// droppedHarness lists harness files excluded because they do not compile against the current tree.
+var droppedHarness []string
 
 func (l *loaded) harness(pkgDir, fn string) (*ssa.Function, error) {
 	path := modPath + "/" + harnessPkgs[pkgDir]
